@@ -10,12 +10,17 @@
 //   U:g:l (at(g).setLocal / at(g).local()=) | Z:w (operator==/!= against a rebuilt, perturbed set of another chunk size)
 //   K:i:j:g (12 IndexPair comparison operators) | Y:g (GlobalLookupIndexSet::operator[]) | J (GlobalLookupIndexSet begin/end)
 //   C (copy construction / copy assignment, read back immediately)
+//   c:w (audit 2, kind A) the current set is assigned (w even: copy, w odd: move) to a TARGET holding other state (w/2: 0 fresh,
+//        1 nine other pairs + seqNo 2, 2 additionally an unfinished resize phase with pending adds and a deletion mark, 3 emptied
+//        again) and the history CONTINUES ON THE TARGET
+//   numbers: local numbers up to 2^64-1, long long globals from -2^63 to 2^63-1 (audit 2, kinds C/D)
 // Only the public API is used.
 #include <config.h>
 #include <cstdio>
 #include <cstdlib>
 #include <fstream>
 #include <iostream>
+#include <memory>
 #include <sstream>
 #include <string>
 #include <vector>
@@ -79,11 +84,19 @@ static std::vector<long long> fields(const std::string& s)
 {
   std::vector<long long> r; std::string w; std::istringstream is(s);
   bool first = true;
-  while (std::getline(is, w, ':')) { if (first) { first = false; continue; } r.push_back(std::stoll(w)); }
+  while (std::getline(is, w, ':')) { if (first) { first = false; continue; } r.push_back(!w.empty() && w[0] == '-' ? std::stoll(w) : (long long) std::stoull(w)); }
   return r;
 }
 
 static std::string bits(std::initializer_list<bool> b) { std::string r = "b"; for (bool x : b) r += x ? '1' : '0'; return r; }
+
+// a GlobalLookupIndexSet has (largest local number + 1) entries: not built for local numbers near 2^31 .. 2^64 (same rule in the model driver)
+template<class Set>
+static bool table_too_large(const Set& cs)
+{
+  for (typename Set::const_iterator it = cs.begin(); it != cs.end(); ++it) if ((std::size_t) it->local().local() >= 999999) return true;
+  return false;
+}
 
 template<class TG, class TL, int N>
 static std::string run(const std::vector<std::string>& t)
@@ -92,8 +105,7 @@ static std::string run(const std::vector<std::string>& t)
   typedef Dune::ParallelIndexSet<TG, TL, 5> Set2;                 // the other chunk size for operator== (N is never 5)
   typedef typename Set::IndexPair Pair;
   static_assert(Set::arraySize == ((N > 0) ? N : 1), "arraySize");
-  Set s;
-  const Set& cs = s;
+  std::unique_ptr<Set> sp(new Set);                                // the object under test (op 'c' replaces it by an assigned target)
 #ifdef NDEBUG
   const bool checking = false;
 #else
@@ -104,10 +116,40 @@ static std::string run(const std::vector<std::string>& t)
     const std::string& op = t[i];
     std::vector<long long> f = fields(op);
     std::string r;
+    Set& s = *sp;
+    const Set& cs = *sp;
     try {
       switch (op[0]) {
       case 'B': s.beginResize(); r = "ok"; break;
-      case 'A': s.add((TG) f[0], mk((const TL*) 0, (std::size_t) f[1], (int) f[2], f[3] != 0)); r = "ok"; break;
+      case 'A':
+        if (f[1] % 3 == 2) {                                      // arguments as named (const / non-const) lvalues instead of temporaries
+          const TG g = (TG) f[0]; TL l = mk((const TL*) 0, (std::size_t) f[1], (int) f[2], f[3] != 0);
+          s.add(g, l);
+        } else
+          s.add((TG) f[0], mk((const TL*) 0, (std::size_t) f[1], (int) f[2], f[3] != 0));
+        r = "ok"; break;
+      case 'c': {
+        const int w = (int) f[0], cfg = w / 2;
+        std::unique_ptr<Set> t(new Set);
+        if (cfg >= 1) {
+          t->beginResize();
+          for (int j = 0; j < 9; ++j) t->add((TG) (long long) (1000 + 7 * j), mk((const TL*) 0, (std::size_t) (50 + j), j % 3, j % 2 == 1));
+          t->endResize();
+          t->beginResize(); t->endResize();
+        }
+        if (cfg == 2) {
+          t->beginResize();
+          t->add((TG) (long long) -77, mk((const TL*) 0, 5, 1, true)); t->add((TG) (long long) 2000);
+          t->markAsDeleted(t->begin());
+        } else if (cfg >= 3) {
+          t->beginResize();
+          for (typename Set::iterator it = t->begin(); it != t->end(); ++it) t->markAsDeleted(it);
+          t->endResize();
+        }
+        if (w % 2 == 0) *t = cs; else *t = std::move(s);
+        sp = std::move(t);                                        // the old object is destroyed; all later ops run on the target
+        r = "ok"; break;
+      }
       case 'a': s.add((TG) f[0]); r = "ok"; break;
       case 'r': {                                               // aliasing: add() with references INTO the set's own storage
         std::size_t k = (std::size_t) f[0];
@@ -120,6 +162,7 @@ static std::string run(const std::vector<std::string>& t)
       case 'D': {
         std::size_t k = (std::size_t) f[0];
         if (k >= s.size() && (!checking || s.state() == Dune::RESIZE)) { r = "PRECOND"; break; }
+        if (k == 0) { s.markAsDeleted(s.begin()); r = "ok"; break; }   // a temporary iterator
         typename Set::iterator it = s.begin();
         if (k % 2) it += k; else for (std::size_t j = 0; j < k; ++j) ++it;
         s.markAsDeleted(it); r = "ok"; break;
@@ -174,6 +217,7 @@ static std::string run(const std::vector<std::string>& t)
         break;
       }
       case 'V': {
+        if (table_too_large(cs)) { r = "TABLE-TOO-LARGE"; break; }
         Dune::GlobalLookupIndexSet<Set> gl0(cs);
         Dune::GlobalLookupIndexSet<Set> gl(gl0);                 // a copy of the lookup set must answer the same
         std::size_t l = (std::size_t) f[0];
@@ -185,6 +229,7 @@ static std::string run(const std::vector<std::string>& t)
       }
       case 'W': {
         std::size_t sz = (std::size_t) f[0], l = (std::size_t) f[1];
+        if (sz >= 1000000) { r = "TABLE-TOO-LARGE"; break; }
         bool pre = l < sz;
         for (typename Set::const_iterator it = cs.begin(); it != cs.end(); ++it) if (it->local().local() >= sz) pre = false;
         if (!pre) { r = "PRECOND"; break; }
@@ -195,11 +240,13 @@ static std::string run(const std::vector<std::string>& t)
         break;
       }
       case 'Y': {
+        if (table_too_large(cs)) { r = "TABLE-TOO-LARGE"; break; }
         if (s.size() == 0) { r = "PRECOND"; break; }
         Dune::GlobalLookupIndexSet<Set> gl(cs);
         r = pstr(gl[(TG) f[0]]); break;
       }
       case 'J': {
+        if (table_too_large(cs)) { r = "TABLE-TOO-LARGE"; break; }
         Dune::GlobalLookupIndexSet<Set> gl(cs);
         r = "[";
         for (typename Dune::GlobalLookupIndexSet<Set>::const_iterator it = gl.begin(); it != gl.end(); ++it) r += pstr(*it);
